@@ -1558,3 +1558,233 @@ Proof.
     pose proof (v_hs1 _ (l_inv _ L) k). lia.
   - apply (l_guard _ L).
 Qed.
+
+(* ------------------------------------------------------------------ thread typing, quiescence *)
+Definition stop_a (a : act) : option nat :=
+  match a with
+  | SAcq i | SRel i _ | SCbDone i | SAcq2 i | SRel2 i => Some i
+  | _ => None
+  end.
+Definition is_try_a (a : act) : bool := match a with TTry _ | ARelease _ => true | _ => false end.
+
+Record MInv (s : st) : Prop := {
+  m_inv : Inv s;
+  m_len : 2 * nl s <= length (thr s);
+  (* request_stop for locker i runs on thread nl + i; try_lock threads come after *)
+  m_styp_a : forall t a kc i, nth_error (thr s) t = Some (a, kc) -> stop_a a = Some i -> t = nl s + i;
+  m_styp_k : forall t a i, nth_error (thr s) t = Some (a, KStopper i) -> t = nl s + i;
+  m_ttyp : forall t a kc, nth_error (thr s) t = Some (a, kc) -> is_try_a a = true -> 2 * nl s <= t;
+  m_fin : forall t kc, nth_error (thr s) t = Some (AFin, kc) -> kc = KEnd;
+  (* a locker's thread ends only after it released the mutex (or its receiver got set_done: then
+     it stays in AWaitGot) *)
+  m_fi : forall t a, t < nl s -> nth_error (thr s) t = Some (a, KEnd) -> a = AWaitGot t \/ o_released (ops s t) = true;
+  m_rl : forall t a kc i, nth_error (thr s) t = Some (a, kc) -> own_a a = Some i \/ own_k kc = Some i ->
+         o_released (ops s i) = false
+}.
+
+Lemma released_mono s t s' evs k : step t s = Some (s', evs) ->
+  o_released (ops s k) = true -> o_released (ops s' k) = true.
+Proof.
+  intros H Hc. step_split' H Hth; simpl; unfold getop in *; destr_if; simpl; auto.
+Qed.
+
+Lemma released_change s t s' evs k : step t s = Some (s', evs) ->
+  o_released (ops s' k) = true ->
+  o_released (ops s k) = true \/ exists kc, nth_error (thr s) t = Some (AWaitGot k, kc).
+Proof.
+  intros H Hc.
+  step_split' H Hth; simpl in *; unfold getop in *; destr_if; simpl in *; auto;
+    try (match goal with Q : (_ =? _) = true |- _ => apply Nat.eqb_eq in Q; subst end; simpl in *; auto);
+    try (right; eauto).
+Qed.
+
+Lemma step_minv s t s' evs : MInv s -> step t s = Some (s', evs) -> MInv s'.
+Proof.
+  intros M H. pose proof (m_inv _ M) as I.
+  destruct (step_consts _ _ _ _ H) as [_ Enl].
+  constructor.
+  - eapply step_inv; eauto.
+  - rewrite Enl. pose proof (m_len _ M) as L.
+    assert (length (thr s') = length (thr s)); [|lia].
+    clear - H. step_split' H Hth; simpl; unfold ret; simpl; rewrite ?length_set_nth; reflexivity.
+  - intros t0 a0 kc0 i0 H0 Hs. rewrite Enl.
+    step_split' H Hth; simpl in H0;
+    (destruct (nth_thr_cases _ _ _ _ _ _ Hth H0) as [[-> E]|[N E]];
+     [ injection E as Ea Ek; subst a0 kc0; try (destruct kc; simpl in Hs; try kill_ki I Hth);
+       repeat match type of Hs with context [if ?b then _ else _] => destruct b eqn:? end;
+       simpl in Hs; try discriminate Hs; injection Hs as Ei; subst i0;
+       first [ eapply (m_styp_a _ M _ _ _ _ Hth); reflexivity | eapply (m_styp_k _ M _ _ _ Hth) ]
+     | eapply (m_styp_a _ M); eauto ]).
+  - intros t0 a0 i0 H0. rewrite Enl.
+    step_split' H Hth; simpl in H0;
+    (destruct (nth_thr_cases _ _ _ _ _ _ Hth H0) as [[-> E]|[N E]];
+     [ try (destruct kc; simpl in E; try kill_ki I Hth);
+       repeat match type of E with context [if ?b then _ else _] => destruct b eqn:? end;
+       try discriminate E; injection E as Ea Ei; subst;
+       first [ eapply (m_styp_a _ M _ _ _ _ Hth); reflexivity | eapply (m_styp_k _ M _ _ _ Hth) ]
+     | eapply (m_styp_k _ M); eauto ]).
+  - intros t0 a0 kc0 H0 Hs. rewrite Enl.
+    step_split' H Hth; simpl in H0;
+    (destruct (nth_thr_cases _ _ _ _ _ _ Hth H0) as [[-> E]|[N E]];
+     [ injection E as Ea Ek; subst a0 kc0; try (destruct kc; simpl in Hs; try kill_ki I Hth);
+       repeat match type of Hs with context [if ?b then _ else _] => destruct b eqn:? end;
+       simpl in Hs; try discriminate Hs;
+       eapply (m_ttyp _ M _ _ _ Hth); reflexivity
+     | eapply (m_ttyp _ M); eauto ]).
+  - intros t0 kc0 H0.
+    step_split' H Hth; simpl in H0;
+    (destruct (nth_thr_cases _ _ _ _ _ _ Hth H0) as [[-> E]|[N E]];
+     [ try (destruct kc; simpl in E; try kill_ki I Hth);
+       repeat match type of E with context [if ?b then _ else _] => destruct b eqn:? end;
+       try discriminate E; injection E as Ea; subst; reflexivity
+     | eapply (m_fin _ M); eauto ]).
+  - intros t0 a0 Ht0 H0. rewrite Enl in Ht0.
+    pose proof (released_mono _ _ _ _ t0 H) as RM.
+    step_split' H Hth; simpl in H0;
+    (destruct (nth_thr_cases _ _ _ _ _ _ Hth H0) as [[-> E]|[N E]];
+     [ try (destruct kc; simpl in E; try kill_ki I Hth);
+       repeat match type of E with context [if ?b then _ else _] => destruct b eqn:? end;
+       try discriminate E; injection E as Ea; subst
+     | destruct (m_fi _ M _ _ Ht0 E) as [X|X]; [left; exact X|right; apply RM; exact X] ]).
+    all: try (exfalso; pose proof (m_styp_k _ M _ _ _ Hth); lia).
+    all: try (exfalso; pose proof (m_styp_a _ M _ _ _ _ Hth eq_refl); lia).
+    all: try (exfalso; pose proof (m_ttyp _ M _ _ _ Hth eq_refl); lia).
+    all: try (left; f_equal; symmetry; eapply (v_own_k _ I _ _ _ _ Hth); reflexivity).
+    all: try (destruct (m_fi _ M _ _ Ht0 Hth) as [X|X]; [try discriminate X|right; apply RM; exact X]).
+    all: right; assert (Ei : i = t) by (eapply eq_sym, (v_own_a _ I _ _ _ _ Hth); reflexivity); subst i;
+         unfold getop; simpl; rewrite Nat.eqb_refl; reflexivity.
+  - intros t0 a0 kc0 i0 H0 Ho.
+    assert (RC := released_change _ _ _ _ i0 H).
+    destruct (o_released (ops s' i0)) eqn:Er; auto. exfalso. specialize (RC eq_refl).
+    revert Er RC.
+    step_split' H Hth; simpl in H0; intros Er RC;
+    (destruct (nth_thr_cases _ _ _ _ _ _ Hth H0) as [[-> E]|[N E]];
+     [ injection E as Ea Ek; subst a0 kc0
+     | ]);
+    (destruct RC as [RC|[kc1 RC]];
+     [ | try discriminate RC ]).
+    all: try (rewrite (m_rl _ M _ _ _ _ E Ho) in RC; discriminate RC).
+    all: try (destruct kc; simpl in Ho; try kill_ki I Hth).
+    all: try (destruct Ho as [Ho|Ho];
+              repeat match type of Ho with context [if ?b then _ else _] => destruct b eqn:? end;
+              simpl in Ho; try discriminate Ho; injection Ho as Ei; subst i0;
+              first [ rewrite (m_rl _ M _ _ _ _ Hth (or_introl eq_refl)) in RC
+                    | rewrite (m_rl _ M _ _ _ _ Hth (or_intror eq_refl)) in RC ]; discriminate RC).
+    all: injection RC as Ei _; subst i0; apply N;
+         assert (Et : t = i) by (eapply (v_own_a _ I _ _ _ _ Hth); reflexivity);
+         assert (Et0 : t0 = i) by (destruct Ho as [Ho|Ho]; [eapply (v_own_a _ I _ _ _ _ E Ho)|eapply (v_own_k _ I _ _ _ _ E Ho)]);
+         congruence.
+Qed.
+
+Lemma combine_nth_error {A B} (l1 : list A) (l2 : list B) k x y :
+  nth_error (combine l1 l2) k = Some (x, y) -> nth_error l1 k = Some x /\ nth_error l2 k = Some y.
+Proof.
+  revert l2 k. induction l1 as [|a l1 IH]; intros l2 k H; simpl in H.
+  - destruct k; discriminate.
+  - destruct l2 as [|b l2]; [destruct k; discriminate|]. destruct k; simpl in *.
+    + inversion H. auto.
+    + apply IH. exact H.
+Qed.
+
+Lemma seq_nth_error b n k x : nth_error (seq b n) k = Some x -> x = b + k /\ k < n.
+Proof.
+  revert b k. induction n as [|n IH]; intros b k H; simpl in H.
+  - destruct k; discriminate.
+  - destruct k; simpl in H.
+    + inversion H. lia.
+    + apply IH in H. lia.
+Qed.
+
+Lemma init_thr_pos fx hs nt t a kc :
+  nth_error (thr (init fx hs nt)) t = Some (a, kc) ->
+  let n := length hs in
+  (t < n /\ a = AReg t /\ kc = KTop t) \/
+  (n <= t < 2 * n /\ (a = SAcq (t - n) \/ a = AFin) /\ kc = KEnd) \/
+  (2 * n <= t /\ (exists j, a = TTry j) /\ kc = KEnd).
+Proof.
+  unfold init. cbn [thr]. intros H. cbv zeta. set (n := length hs) in *.
+  destruct (Nat.ltb_spec t n) as [E1|E1].
+  - left. rewrite nth_error_app1 in H by (rewrite map_length, seq_length; auto).
+    rewrite nth_error_map in H. destruct (nth_error (seq 0 n) t) eqn:E; [|discriminate].
+    apply seq_nth_error in E. simpl in H. inversion H. destruct E as [-> _]. auto.
+  - right. rewrite nth_error_app2 in H by (rewrite map_length, seq_length; auto). rewrite map_length, seq_length in H.
+    assert (Lc : length (combine (seq 0 n) hs) = n) by (rewrite combine_length, seq_length; apply Nat.min_id).
+    destruct (Nat.ltb_spec (t - n) n) as [E2|E2].
+    + left. rewrite nth_error_app1 in H by (rewrite map_length, Lc; auto).
+      rewrite nth_error_map in H. destruct (nth_error (combine (seq 0 n) hs) (t - n)) as [[i b]|] eqn:E; [|discriminate].
+      apply combine_nth_error in E. destruct E as [Es _]. apply seq_nth_error in Es. simpl in Es, H.
+      destruct Es as [-> _]. inversion H. split; [lia|]. split; auto. destruct b; auto.
+    + right. rewrite nth_error_app2 in H by (rewrite map_length, Lc; auto). rewrite map_length, Lc in H.
+      rewrite nth_error_map in H. destruct (nth_error (seq 0 nt) (t - n - n)) eqn:E; [|discriminate].
+      simpl in H. inversion H. split; [lia|]. split; eauto.
+Qed.
+
+Lemma init_minv fx hs nt : MInv (init fx hs nt).
+Proof.
+  constructor.
+  - apply init_inv.
+  - simpl. rewrite !app_length, !map_length, seq_length, combine_length, seq_length, Nat.min_id. lia.
+  - intros t a kc i H Hs. apply init_thr_pos in H. simpl.
+    destruct H as [(H1 & -> & ->)|[(H1 & [->| ->] & ->)|(H1 & [j ->] & ->)]]; simpl in Hs; inversion Hs; subst; lia.
+  - intros t a i H. apply init_thr_pos in H.
+    destruct H as [(H1 & _ & E)|[(H1 & _ & E)|(H1 & _ & E)]]; discriminate.
+  - intros t a kc H Hs. apply init_thr_pos in H. simpl.
+    destruct H as [(H1 & -> & ->)|[(H1 & [->| ->] & ->)|(H1 & [j ->] & ->)]]; simpl in Hs; try discriminate; lia.
+  - intros t kc H. apply init_thr_pos in H.
+    destruct H as [(H1 & E & _)|[(H1 & _ & E)|(H1 & _ & E)]]; try discriminate; auto.
+  - intros t a Ht H. apply init_thr_pos in H. simpl in Ht.
+    destruct H as [(H1 & _ & E)|[(H1 & _ & E)|(H1 & _ & E)]]; try discriminate; lia.
+  - intros t a kc i H Ho. reflexivity.
+Qed.
+
+Lemma minv_reachable fx hs nt sched : MInv (fst (run step sched (init fx hs nt, []))).
+Proof.
+  apply (run_invariant_state _ _ _ step MInv).
+  - intros s t s' ev I H. eapply step_minv; eauto.
+  - apply init_minv.
+Qed.
+
+Lemma quiescent_thread s t a kc : quiescent s = true -> nth_error (thr s) t = Some (a, kc) ->
+  a = AFin \/ exists i, a = AWaitGot i /\ o_res (ops s i) = [ODone].
+Proof.
+  unfold quiescent. intros Q H. rewrite forallb_forall in Q.
+  specialize (Q _ (nth_error_In _ _ H)). unfold thr_finished in Q. simpl in Q.
+  destruct a; try discriminate; auto. right. exists i. split; auto. unfold getop in Q.
+  destruct (o_res (ops s i)) as [|[] [|? ?]]; try discriminate; auto.
+Qed.
+
+(* at quiescence (every thread body has ended; a locker whose receiver got set_done counts as
+   ended) every locker's receiver has been completed exactly once, nobody is queued, and - with
+   the repaired forwarder - the mutex is unlocked *)
+Theorem served_at_quiescence fx hs nt sched :
+  let s := fst (run step sched (init fx hs nt, [])) in
+  quiescent s = true ->
+  (forall i, i < nl s -> length (o_res (ops s i)) = 1) /\ queue s = [] /\ (fx = true -> locked s = false).
+Proof.
+  intros s Q. pose proof (minv_reachable fx hs nt sched) as M. fold s in M.
+  pose proof (m_inv _ M) as I.
+  assert (A : forall i, i < nl s -> o_res (ops s i) = [ODone] \/ (o_res (ops s i) = [OValue] /\ o_released (ops s i) = true)).
+  { intros i Hi. pose proof (m_len _ M) as L.
+    destruct (nth_error (thr s) i) as [[a kc]|] eqn:E; [|apply nth_error_None in E; lia].
+    destruct (quiescent_thread _ _ _ _ Q E) as [->|[j [-> Hj]]].
+    - pose proof (m_fin _ M _ _ E). subst kc.
+      destruct (m_fi _ M _ _ Hi E) as [X|X]; [discriminate|]. right. split; auto. apply (v_rs _ I). exact X.
+    - left. assert (i = j) by (eapply (v_own_a _ I _ _ _ _ E); reflexivity). subst. exact Hj. }
+  split; [|split].
+  - intros i Hi. destruct (A i Hi) as [->|[-> _]]; reflexivity.
+  - destruct (queue s) as [|k r] eqn:Eq; auto. exfalso.
+    assert (Hk : k < nl s) by (apply (v_wf_q _ I); rewrite Eq; left; auto).
+    assert (Hh : handles s k = 1).
+    { pose proof (v_hs1 _ I k). unfold handles, inq in *. rewrite Eq in *. simpl in *.
+      destruct (Nat.eq_dec k k); [lia|congruence]. }
+    pose proof (v_hs2 _ I k Hh) as Hc. pose proof (v_ps _ I k) as P. rewrite Hc in P. simpl in P.
+    destruct (A k Hk) as [X|[X _]]; rewrite X in P; simpl in P; lia.
+  - intros ->. pose proof (v_tokf _ I) as T. unfold s in T at 1. rewrite fixed_run in T. specialize (T eq_refl).
+    fold s in T.
+    assert (Z : tokens s = 0).
+    { rewrite tokens_eq. unfold thr_tok, ops_tok. rewrite !sumf_zero; auto.
+      - intros n x Hn. apply seq_nth_error in Hn. destruct Hn as [-> Hn]. simpl.
+        unfold op_tok. destruct (A n Hn) as [->|[-> ->]]; reflexivity.
+      - intros n [a kc] Hn. destruct (quiescent_thread _ _ _ _ Q Hn) as [->|[j [-> _]]]; reflexivity. }
+    rewrite Z in T. destruct (locked s); [discriminate|reflexivity].
+Qed.
